@@ -624,7 +624,10 @@ pub fn check(s: &Session, h: &History, stats: &mut Stats) -> Option<Violation> {
     // text of every document publishes the same list (this does not go through the history, so a
     // defect that the sequential reference of (c2) shares is still seen)
     {
-        let mut ops = crate::lsp::preamble_of(s);
+        // a plain client: what is published for a text does not depend on what the client announced
+        // or on how it answered the server's own requests
+        let root_uri = format!("file://{}", s.root);
+        let mut ops = preamble(Some(&root_uri));
         for k in &disk_ops {
             if matches!(s.ops[*k].op, Op::Disk(_)) {
                 ops.push(PlannedOp::new(s.ops[*k].op.clone()));
